@@ -49,7 +49,12 @@ def run(db, chk):
     bodies = {}
     for ty, name, validator, up in METHODS:
         f = method(db, ty, name)
-        body = user_body(db, f, marker="refs::" + validator)
+        try:
+            body = user_body(db, f, marker="refs::" + validator)
+        except AnchorMissing:
+            n += 1
+            chk.ob(R, "%s::%s" % (ty, name), False, "%s::%s never calls its validator %s: the name reaches the object store unchecked" % (ty, name, validator), f.loc())
+            continue
         chk.analysed(body)
         bodies[(ty, name)] = body
         c = body.cfg
